@@ -52,17 +52,23 @@ def strip_comments(src):
     return re.sub(r'--.*', '', src)
 
 
+def prop_modules(prop):
+    """the module(s) holding a property's theorems: Props/<prop>.lean and, when it exists, Props/<prop>Src.lean (source-level theorems whose
+    lemma files themselves import Props/<prop>.lean)"""
+    return [m for m in (prop, prop + 'Src') if os.path.exists(os.path.join(LEAN, 'PjVerif', 'Props', f'{m}.lean'))]
+
+
 def theorems_of(prop):
-    path = os.path.join(LEAN, 'PjVerif', 'Props', f'{prop}.lean')
-    if not os.path.exists(path):
-        return []
-    src = strip_comments(open(path).read())
-    return re.findall(r'^theorem\s+([A-Za-z0-9_\.\']+)', src, flags=re.M)
+    res = []
+    for m in prop_modules(prop):
+        src = strip_comments(open(os.path.join(LEAN, 'PjVerif', 'Props', f'{m}.lean')).read())
+        res += re.findall(r'^theorem\s+([A-Za-z0-9_\.\']+)', src, flags=re.M)
+    return res
 
 
 def import_closure(prop):
     """Lean source files that Props/<prop>.lean transitively imports (within PjVerif)"""
-    seen, todo = set(), [f'PjVerif.Props.{prop}']
+    seen, todo = set(), [f'PjVerif.Props.{m}' for m in prop_modules(prop)]
     while todo:
         m = todo.pop()
         if m in seen:
@@ -101,7 +107,7 @@ def build(prop=None, log=None):
                 ext = {'error': out[-2000:]}
         # a check builds what its property depends on - the module of its theorems with everything it imports - and the driver; the whole
         # library (all properties) is built by --setup.  A module that no longer compiles therefore only concerns the checks that import it.
-        targets = ['PjVerif', 'pjdriver'] if prop is None else [f'PjVerif.Props.{prop}', 'pjdriver']
+        targets = ['PjVerif', 'pjdriver'] if prop is None else [f'PjVerif.Props.{m}' for m in prop_modules(prop)] + ['pjdriver']
         rc, out = sh(['lake', 'build'] + targets, cwd=LEAN)
         res = {'ok': rc == 0, 'log': out[-6000:], 'extract': ext, 'prop_ok': rc == 0}
         return res
@@ -116,10 +122,10 @@ def audit(prop):
         return [], [], {}
     os.makedirs(os.path.join(LEAN, '.lake'), exist_ok=True)
     path = os.path.join(LEAN, '.lake', f'audit_{prop}_{os.getpid()}.lean')
-    src = open(os.path.join(LEAN, 'PjVerif', 'Props', f'{prop}.lean')).read()
-    nss = re.findall(r'^namespace\s+([A-Za-z0-9_\.]+)', src, flags=re.M)
+    src = ''.join(open(os.path.join(LEAN, 'PjVerif', 'Props', f'{m}.lean')).read() for m in prop_modules(prop))
+    nss = sorted(set(re.findall(r'^namespace\s+([A-Za-z0-9_\.]+)', src, flags=re.M)))
     with open(path, 'w') as f:
-        f.write(f'import PjVerif.Props.{prop}\nopen Pj\n' + ''.join(f'open {n}\n' for n in nss))
+        f.write(''.join(f'import PjVerif.Props.{m}\n' for m in prop_modules(prop)) + 'open Pj\n' + ''.join(f'open {n}\n' for n in nss))
         for n in names:
             f.write(f'#print axioms {n}\n')
     try:
@@ -141,7 +147,7 @@ def audit(prop):
 def recheck(prop):
     """thorough tier: re-check the compiled module of the property's theorems with leanchecker, the toolchain's independent re-checker of
     .olean files (replays every declaration of the module through the kernel).  Returns (ok, log tail)."""
-    mods = [f'PjVerif.Props.{prop}']
+    mods = [f'PjVerif.Props.{m}' for m in prop_modules(prop)]
     if prop in ('C02', 'C06', 'C08', 'C09', 'C15'):
         mods.append('PjVerif.Props.Witness')
     rc, out = sh(['lake', 'env', 'leanchecker'] + mods, cwd=LEAN)
